@@ -373,6 +373,11 @@ class Filterbank(ABC):
         maximum dispersion delay.
         """
         chan_delays = self.header.get_dmdelays(dm)
+        # Delays are relative to the first channel and are negative for a negative
+        # DM or an ascending band: count them from the earliest channel instead,
+        # the output then starts -min_delay samples later
+        min_delay = int(chan_delays.min())
+        chan_delays = chan_delays - min_delay
         max_delay = int(chan_delays.max())
         gulp = max(2 * max_delay, gulp)
         nsamps_tot = (self.header.nsamples - start) if nsamps is None else nsamps
@@ -401,7 +406,7 @@ class Filterbank(ABC):
                     "nchans": 1,
                     "dm": dm,
                     "nsamples": tim_len,
-                    "tstart": self.header.mjd_after_nsamps(start),
+                    "tstart": self.header.mjd_after_nsamps(start - min_delay),
                 },
             ),
         )
@@ -1062,6 +1067,9 @@ class Filterbank(ABC):
         """
         subfactor = self.header.nchans // nsub
         chan_delays = self.header.get_dmdelays(dm)
+        # Count delays from the earliest channel (see dedisperse)
+        min_delay = int(chan_delays.min())
+        chan_delays = chan_delays - min_delay
         max_delay = int(chan_delays.max())
         gulp = max(2 * max_delay, gulp)
         out_ar = np.empty((gulp - max_delay) * nsub, dtype="float32")
@@ -1074,7 +1082,7 @@ class Filterbank(ABC):
             "dm": dm,
             "nchans": nsub,
             "nbits": 32,
-            "tstart": self.header.mjd_after_nsamps(start),
+            "tstart": self.header.mjd_after_nsamps(start - min_delay),
         }
         if outfile_name is None:
             outfile_name = f"{self.header.basename}_DM{dm:06.2f}.subbands"
